@@ -25,7 +25,7 @@ import (
 
 const (
 	workerAddrSpace = 10 << 30 // RLIMIT_AS of the child
-	workerTimeout   = 60 * time.Second
+	workerTimeout   = 300 * time.Second // wall clock, generous: the machine is shared (CPU time is what the oracle limits)
 )
 
 func runWorker() {
